@@ -730,3 +730,46 @@ mod tests {
         assert_eq!(stream.len(), 10);
     }
 }
+
+#[cfg(feature = "verif-hooks")]
+impl Stream {
+    /// (data.last_id, atomic millis, atomic seq, atomic length, number of stored entries)
+    pub fn verif_meta(&self) -> (StreamId, u64, u64, usize, usize) {
+        let data = self.data.lock().unwrap();
+        (data.last_id,
+         self.last_id_millis.load(Ordering::Relaxed),
+         self.last_id_seq.load(Ordering::Relaxed),
+         self.length.load(Ordering::Relaxed),
+         data.entries.len())
+    }
+    
+    /// Canonical text of the whole stream (ids with millis >= ms_base printed relative to it)
+    pub fn verif_dump(&self, ms_base: u64) -> String {
+        let rel = |id: &StreamId| if id.millis() >= ms_base && ms_base > 0 {
+            format!("T+{}-{}", id.millis() - ms_base, id.seq())
+        } else {
+            format!("{}-{}", id.millis(), id.seq())
+        };
+        let relm = |m: u64| if m >= ms_base && ms_base > 0 { format!("T+{}", m - ms_base) } else { format!("{}", m) };
+        let mut out = String::from("stream[");
+        {
+            let data = self.data.lock().unwrap();
+            for e in data.entries.iter() {
+                let mut f: Vec<(&Vec<u8>, &Vec<u8>)> = e.fields.iter().collect();
+                f.sort();
+                out.push_str(&format!("({} {:?})", rel(&e.id), f));
+            }
+            out.push_str(&format!("] last={} am={} as={} len={}", rel(&data.last_id),
+                relm(self.last_id_millis.load(Ordering::Relaxed)),
+                self.last_id_seq.load(Ordering::Relaxed),
+                self.length.load(Ordering::Relaxed)));
+        }
+        let mut groups = self.consumer_groups.list_groups();
+        groups.sort_by(|a, b| a.name.cmp(&b.name));
+        for g in groups {
+            out.push_str(" ");
+            out.push_str(&g.verif_dump(ms_base));
+        }
+        out
+    }
+}
